@@ -142,9 +142,13 @@ func (p *Parser) parseTransaction() *ast.Transaction {
 	}
 
 	for p.current.Type == TokenIndent {
-		posting := p.parsePosting()
+		posting, comment := p.parsePosting()
 		if posting != nil {
 			tx.Postings = append(tx.Postings, *posting)
+		}
+		if comment != nil {
+			// a comment line inside a transaction belongs to the transaction
+			tx.Comments = append(tx.Comments, *comment)
 		}
 		if p.current.Type == TokenNewline {
 			p.advance()
@@ -252,19 +256,19 @@ func (p *Parser) parseStatus() ast.Status {
 	return status
 }
 
-func (p *Parser) parsePosting() *ast.Posting {
+func (p *Parser) parsePosting() (*ast.Posting, *ast.Comment) {
 	if p.current.Type != TokenIndent {
-		return nil
+		return nil, nil
 	}
 	p.advance()
 
 	if p.current.Type == TokenComment {
-		p.parseComment()
-		return nil
+		comment := p.parseComment()
+		return nil, &comment
 	}
 
 	if p.current.Type == TokenNewline || p.current.Type == TokenEOF {
-		return nil
+		return nil, nil
 	}
 
 	posting := &ast.Posting{}
@@ -289,7 +293,7 @@ func (p *Parser) parsePosting() *ast.Posting {
 	if p.current.Type != TokenAccount {
 		p.error("expected account name")
 		p.skipToNextLine()
-		return nil
+		return nil, nil
 	}
 
 	posting.Account = ast.Account{
@@ -324,7 +328,7 @@ func (p *Parser) parsePosting() *ast.Posting {
 	}
 
 	posting.Range.End = toASTPosition(p.current.Pos)
-	return posting
+	return posting, nil
 }
 
 func (p *Parser) parseAmount() *ast.Amount {
